@@ -203,6 +203,17 @@ class SRec:
         return 'SRec(%s)' % (self.fields,)
 
 
+class SOpt:
+    """None or a value, kept symbolic (inside sequence elements, where a path fork per element is
+    impossible): isnone is a Bool term, val the value when present"""
+
+    def __init__(self, isnone, val):
+        self.isnone, self.val = isnone, val
+
+    def __repr__(self):
+        return 'SOpt(%s,%r)' % (self.isnone, self.val)
+
+
 class SObj:
     """Instance of a repository class."""
 
